@@ -46,8 +46,8 @@ var HistNames = map[string][3]string{
 	"glob":    {"glob[1]", "glob*", "glob?"},
 	"bslash":  {"back\\slash", "back", "back\\\\"},
 	"stamped": {"t20240101.10:00:00x", "t2024", "20240101"},
-	"ext":     {"load.data", "load", "x.dat"},       // names containing the store's own file extension
-	"extdir":  {"job", "job2", "other"},            // plain names below a data directory whose name contains ".dat"
+	"ext":     {"load.data", "load", "x.dat"}, // names containing the store's own file extension
+	"extdir":  {"job", "job2", "other"},       // plain names below a data directory whose name contains ".dat"
 }
 var HistNameOrder = []string{"plain", "spaces", "suffix", "dots", "short", "glob", "bslash", "stamped", "ext", "extdir"}
 
